@@ -1,4 +1,53 @@
-/- Line protocol of C16: placeholder until the model of this property is built. -/
+import BertE.Gen.Mask
+import BertE.Model.Mask
+/- Line protocol of C16. Strings travel as decimal code points joined by `.` (`-` = empty string).
+     quote <s>                       -> quote_plus(s)
+     shq <s>                         -> quote(s.strip()) if s else s          (Repository.cmd)
+     mask <pwd> <s>                  -> mask_pwd(s)
+     sinks <threshold> <ok|exit|timeout|other> <pwd> <command> <output> <errstr> <cwd> <code> <timeout>
+                                     -> `<sink>=<text>` joined by `;`, in source order
+     unmasked                        -> `fn/branch/sink` of the flows with an unmasked tainted argument, joined by `,`
+-/
 namespace BertE.Drv.C16
-def handle (_args : List String) : String := "bad-op"
+open BertE.Mask
+
+def genTbl : Tbl := BertE.Gen.Mask.tbl
+
+def dec (s : String) : Option (List Char) :=
+  if s == "-" then some [] else (s.splitOn ".").mapM (fun w => w.toNat?.map Char.ofNat)
+
+def enc (l : List Char) : String :=
+  if l.isEmpty then "-" else ".".intercalate (l.map (fun c => toString c.toNat))
+
+def outcomeOf : String → Option Outcome
+  | "ok" => some .ok | "exit" => some .exit | "timeout" => some .timeout | "other" => some .other
+  | _ => none
+
+def Flow.leaky (f : Flow) : Bool :=
+  f.pieces.any (fun p => match p with | .arg src masked => src.tainted && !masked | _ => false)
+
+def handle (args : List String) : String :=
+  match args with
+  | ["quote", s] =>
+    match dec s with
+    | some s => enc (quotePlus genTbl.quoteSafe s)
+    | none => "bad-op"
+  | ["shq", s] =>
+    match dec s with
+    | some s => enc (shellArg genTbl.shellSafe genTbl.spaces s)
+    | none => "bad-op"
+  | ["mask", p, s] =>
+    match dec p, dec s with
+    | some p, some s => enc (mask genTbl.star p s)
+    | _, _ => "bad-op"
+  | ["sinks", thr, oc, pwd, command, output, errstr, cwd, code, timeout] =>
+    match thr.toNat?, outcomeOf oc, [pwd, command, output, errstr, cwd, code, timeout].mapM dec with
+    | some thr, some oc, some [pwd, command, output, errstr, cwd, code, timeout] =>
+      let e : Env := ⟨command, output, errstr, cwd, code, timeout⟩
+      ";".intercalate ((sinkMessages genTbl pwd e oc thr).map (fun m => m.1 ++ "=" ++ enc m.2))
+    | _, _, _ => "bad-op"
+  | ["unmasked"] =>
+    ",".intercalate ((genTbl.flows.filter Flow.leaky).map (fun f => f.fn ++ "/" ++ f.branch ++ "/" ++ f.sink))
+  | _ => "bad-op"
+
 end BertE.Drv.C16
